@@ -17,10 +17,16 @@ FAMILY = {'v4u': (1, 1), 'v6u': (2, 1), 'v4l': (1, 4), 'v4vpn': (1, 128), 'v6l':
 def gen_kind(rng, idx: int) -> dict:
     ibgp = rng.chance(0.4)
     local_as = rng.choice([65001, 65001, 4200000001])
-    return {
+    k = {
         'idx': idx, 'peer_ip': f'10.0.0.{idx + 2}', 'local_as': local_as, 'peer_as': local_as if ibgp else [65002, 65003, 4200000002][idx % 3],
         'peer_asn4': rng.chance(0.7), 'addpath': rng.chance(0.4), 'extmsg': rng.chance(0.3), 'nexthop_ext': False,
     }  # fmt: skip
+    # asymmetric ADD-PATH (RFC 7911: we send path ids iff we advertise send and the peer advertises receive)
+    if rng.chance(0.35):
+        k['ap_local'] = rng.choice(['send', 'receive', 'send/receive'])
+        k['ap_peer'] = rng.choice([1, 2, 3])
+        k['addpath'] = 'send' in k['ap_local'] and bool(k['ap_peer'] & 1)
+    return k
 
 
 def kind_conf(k: dict, api: bool = True, static: list[str] | None = None) -> dict:
@@ -28,9 +34,9 @@ def kind_conf(k: dict, api: bool = True, static: list[str] | None = None) -> dic
     n = {
         'peer_ip': k['peer_ip'], 'local_ip': LOCAL, 'local_as': k['local_as'], 'peer_as': k['peer_as'], 'router_id': LOCAL, 'hold': 180,
         'families': fams, 'adj-rib-out': False, 'group-updates': k.get('group_updates', True),
-        'caps': {'asn4': True, 'extended-message': k['extmsg'], 'add-path': 'send/receive' if k['addpath'] else 'disable', 'route-refresh': True,
+        'caps': {'asn4': True, 'extended-message': k['extmsg'], 'add-path': k.get('ap_local', 'send/receive' if k['addpath'] else 'disable'), 'route-refresh': True,
                  'nexthop': bool(k.get('nexthop_ext')), 'graceful-restart': 'disable', 'multi-session': False, 'operational': False, 'aigp': True},
-        'addpath_families': [(1, 1), (1, 4), (1, 128), (2, 1)] if k['addpath'] else None,
+        'addpath_families': [(1, 1), (1, 4), (1, 128), (2, 1)] if (k['addpath'] or k.get('ap_local')) else None,
     }  # fmt: skip
     if k.get('nexthop_ext'):
         n['nexthop'] = ['ipv4 unicast ipv6']
@@ -43,8 +49,9 @@ def kind_conf(k: dict, api: bool = True, static: list[str] | None = None) -> dic
 
 def kind_speaker_spec(k: dict) -> dict:
     spec = {'asn': k['peer_as'], 'families': [(1, 1), (2, 1), (1, 4), (1, 128)], 'asn4': k['peer_asn4'] or k['peer_as'] > 65535, 'extmsg': k['extmsg']}
-    if k['addpath']:
-        spec['addpath'] = [(1, 1, 3), (1, 4, 3), (1, 128, 3), (2, 1, 3)]
+    if k['addpath'] or k.get('ap_peer'):
+        m = k.get('ap_peer', 3)
+        spec['addpath'] = [(1, 1, m), (1, 4, m), (1, 128, m), (2, 1, m)]
     if k.get('nexthop_ext'):
         spec['nexthop'] = [(1, 1, 2)]
     return spec
